@@ -28,7 +28,7 @@ from optilint.expr import Poly
 from optilint.model import FuncVal, ExtVal, ClassVal, ModVal, dotted
 
 
-class Unsupported(Exception):
+class Unsupported(ValueError):
     pass
 
 
